@@ -213,6 +213,19 @@ func c10(r *core.Run) {
 					}
 				}
 				mm, isMake := m.(*ssa.MakeMap)
+				var helperCall *ssa.Call
+				if !isMake {
+					// a helper that builds and returns the fresh map
+					if hc, ok := m.(*ssa.Call); ok && len(p.Callees(hc)) == 1 {
+						for _, hb := range p.Callees(hc)[0].Blocks {
+							if ret, ok := hb.Instrs[len(hb.Instrs)-1].(*ssa.Return); ok && len(ret.Results) == 1 {
+								if mk, ok := ret.Results[0].(*ssa.MakeMap); ok {
+									mm, isMake, helperCall = mk, true, hc
+								}
+							}
+						}
+					}
+				}
 				if !isMake {
 					continue
 				}
@@ -221,7 +234,7 @@ func c10(r *core.Run) {
 					if mu, ok := ref.(*ssa.MapUpdate); ok {
 						ups = append(ups, mu)
 					}
-					if c, ok := ref.(ssa.CallInstruction); ok && !strings.HasSuffix(core.CalleeFullName(c), "json.Marshal") {
+					if c, ok := ref.(ssa.CallInstruction); ok && !strings.HasSuffix(core.CalleeFullName(c), "json.Marshal") && helperCall == nil {
 						detail = "the fresh map is passed to " + short(core.CalleeFullName(c))
 						ups = append(ups, nil, nil)
 					}
@@ -231,6 +244,9 @@ func c10(r *core.Run) {
 					continue
 				}
 				kp := p.ProvAt(ups[0].Key, "", ups[0])
+				if helperCall != nil {
+					kp = p.ResolveAlong(kp, []ssa.CallInstruction{helperCall})
+				}
 				if p.OnlyMsgField(core.Prov(filterKinds(kp, "param")), h, "Creator") && kp.HasStore(ftFiles, ".TrackingNumber") && kp.HasExt("sha256") {
 					okReset, detail = true, "fresh map with the single key H(prefix, record.TrackingNumber, signer)"
 				} else {
